@@ -388,7 +388,8 @@ def main(argv):
         viol = [(i, r) for i, r in enumerate(results) if r["kind"] == "VIOLATION"]
         by_key = {}
         for i, r in viol:
-            by_key.setdefault(violation_key(r, cases[i]["variant"]), []).append(i)
+            # the dedicated very-large-block histories carry a key prefix of their own (known finding)
+            by_key.setdefault(("huge:" if cases[i]["meta"].get("huge") else "") + violation_key(r, cases[i]["variant"]), []).append(i)
         n_viol_reported = 0
         for key in sorted(by_key):
             text = out.classify(key)
@@ -401,14 +402,14 @@ def main(argv):
             i = ids[0]
             c = cases[i]
             r2 = run_history(binfo, scratch, c["variant"], c["plan"], c["hist"])
-            if r2["kind"] != "VIOLATION" or violation_key(r2, c["variant"]) != key:
+            if r2["kind"] != "VIOLATION" or violation_key(r2, c["variant"]) != key.replace("huge:", "", 1):
                 out.nondet.append("history %d: violation %s did not reproduce" % (i, key))
                 continue
             mstep = re.search(r"step=(\d+)", r2.get("detail", ""))
             p2, h2, runs = minimise(binfo, scratch, c["variant"], c["plan"], c["hist"], key,
                                     step=int(mstep.group(1)) if mstep else None)
             r3 = run_history(binfo, scratch, c["variant"], p2, h2)
-            if r3["kind"] != "VIOLATION" or violation_key(r3, c["variant"]) != key:
+            if r3["kind"] != "VIOLATION" or violation_key(r3, c["variant"]) != key.replace("huge:", "", 1):
                 p2, h2, r3 = c["plan"], c["hist"], r2
             rp = vsim.write_replay(PID, "seed%d-h%d" % (seed, i), {
                 "property": PID, "seed": seed, "history_index": i, "variant": c["variant"], "plan": p2, "history": h2,
